@@ -1,7 +1,7 @@
 """C09 — stream-level check (see DESIGN.md section 6)."""
 from lib import kv
 PID = "C09"
-LEVEL = "exploration"
+LEVEL = "proof"
 CMD = "c09"
 RULE = 'every strict prefix of small streams (<= 4.2 KB; <= 20 KB in thorough) and boundary-focused + random cuts of larger ones, all configurations incl. headerless and checksums, jobs 1..3: the read must end with an error, never EOF, bytes returned must be a prefix of the original, later Reads must not return data or EOF. Non-trivial = distinct stream.'
 
